@@ -1,4 +1,5 @@
 import Witverif.Proofs.AbiDealloc3
+import Witverif.Proofs.AbiClean2
 /-!
 # C03 — Cleanup code frees exactly the heap data the lowering allocated
 
@@ -13,8 +14,8 @@ those) is evaluated on the real trees for seeded values.
 Known defect (see `dealloc_flist_full_false`): cleanup through memory does nothing below a
 fixed-length list; the dynamic theorem therefore carries `noFlist t`.  That `cleanupBlocks` of the
 memory written by the spec's `store` equals the blocks the spec allocated is checked by the monitor
-on every run (spec-internal consistency); direct-operand cleanup and the lists-and-own mode are
-monitored on the real streams.
+on every run (spec-internal consistency); direct-operand cleanup is monitored on the real streams;
+the lists-and-own mode through memory is proved (`dealloc_indirect_both_modes`).
 -/
 namespace Witverif.Props.C03
 open Witverif.Abi
@@ -48,6 +49,30 @@ theorem dealloc_indirect_frees_exactly_reachable (p : Nat) (hp : p = 4 ∨ p = 8
     (lvl : Nat) (a : Expr) (off : Off) (ds : List Stmt) (h : deallocIndirect false lvl t a off = .ok ds) :
     Frees p lvl a ds (fun m x => cleanupBlocks p m t (x + off.at p)) (fun m x => validDiscs p m t (x + off.at p)) :=
   dealloc_frees p hp t hn lvl a off ds h
+
+/-- **Cleanup through memory, both modes** (lists-only and lists-and-own).  For every type without
+fixed-length lists, both pointer widths, any machine state whose memory has in-range discriminants at
+the value's location: executing the cleanup tree leaves memory and heap untouched, extends the ledger
+of freed blocks by exactly `cleanupBlocks p m t addr` and — in the mode that also releases ownership
+(`handles = true`) — extends the ledger of dropped handles by exactly `cleanupHandles p m t addr`: the
+own / future / stream handles stored in the value (each once, in traversal order; borrows are never
+dropped); in lists-only mode no handle is dropped.  Nothing else is freed, dropped or called
+(`Cleans`, Proofs/AbiClean.lean). -/
+theorem dealloc_indirect_both_modes (handles : Bool) (p : Nat) (hp : p = 4 ∨ p = 8) (t : Ty) (hn : noFlist t = true)
+    (lvl : Nat) (a : Expr) (off : Off) (ds : List Stmt) (h : deallocIndirect handles lvl t a off = .ok ds) :
+    Cleans p lvl a ds
+      (fun m x => (cleanupBlocks p m t (x + off.at p), if handles then cleanupHandles p m t (x + off.at p) else []))
+      (fun m x => validDiscs p m t (x + off.at p)) :=
+  dealloc_cleans handles p hp t hn lvl a off ds h
+
+/-- Non-vacuity of `dealloc_indirect_both_modes`: `record { a: own, b: list<own>, c: borrow, d: option<string> }`
+in lists-and-own mode emits a handle drop, a list cleanup with a per-element drop, nothing for the
+borrow, and a variant-shaped cleanup for the option. -/
+example :
+    noFlist (.record [.own, .list .own, .borrow, .option .string]) = true ∧
+    ∃ ds, deallocIndirect true 0 (.record [.own, .list .own, .borrow, .option .string]) (.arg 0) Off.zero = .ok ds ∧
+      ds.length = 3 :=
+  ⟨by decide, _, rfl, rfl⟩
 
 /-- **`post_return` end to end**: for an exported function whose result (returned through memory,
 no fixed-length lists) lives at `addr`, the generated post-return frees exactly the reachable blocks,
